@@ -123,7 +123,9 @@ FlushBeginD(id) ==
   LET g == grp[id] IN
   /\ g.st = "idle" /\ ~g.dead /\ g.due <= now
   /\ LET fr  == Frozen(g.al, now)
-         pl  == {a \in DOMAIN g.al : ~SuppressedAt(a, now)}          \* after the mute stages
+         \* after the mute stages: inhibition, the route's active / mute intervals (evaluated at the
+         \* timer instant; they drop the whole flush), silences
+         pl  == IF TimeMuted(g.gk, g.due) THEN {} ELSE {a \in DOMAIN g.al : ~SuppressedAt(a, now)}
          F   == {a \in pl : g.al[a].end > now}
          R   == pl \ F
          pcs == [i \in 1..NInt |->
